@@ -654,9 +654,16 @@ def c13_rust(ctx):
         ctx.bad("G1", "Parser::set_included_ranges:ffi", "expected one call of ffi::ts_parser_set_included_ranges")
         return
     text_gate(ctx, "G1", fn, oks, [("Ok only when the C setter accepted the list", [(("result",), True), (("ts_parser_set_included_ranges",), True)])], accept_desc="returning Ok(())")
-    texts = [cond_text(fn, fn.cond(b), True)[0] for b in fn.blocks if fn.cond(b) is not None]
-    a = any("start_byte" in t and "prev_end_byte" in t and "<" in t for t in texts)
-    b = any("end_byte" in t and "start_byte" in t and "<" in t and "prev_end_byte" not in t for t in texts)
+    # each comparison in either operand order, normalised to `x < y`
+    texts = []
+    for bb in fn.blocks:
+        if fn.cond(bb) is None:
+            continue
+        for t, _ in cond_forms(fn, fn.cond(bb), True):
+            if " < " in t:
+                texts.append(t)
+    a = any(re.search(r"start_byte\)? < \(?\*?\w*prev\w*", t) or re.search(r"start_byte < \w+", t) and "end_byte" not in t.split(" < ")[0] and ".start_byte" not in t.split(" < ")[1] for t in texts)
+    b = any(re.search(r"end_byte < [^<]*start_byte", t) for t in texts)
     if a and b:
         ctx.ok("G1", "Parser::set_included_ranges:same-tests", "the error index is found with the same two inequalities the C validator uses")
     else:
